@@ -118,6 +118,8 @@ def junk_pool(env):
         uuid.UUID(int=5), D1(a=1, b="s"), D1(a="1", b=2), Unrelated(), object(), iter([1, 2]), (x for x in ["a"]),
         # (appended: ids of the entries above are part of recorded cases)
         LyingLen(["1", "2"], 3), LyingLen(["1", "2", "3"], 2), LyingLen([("a", "1")], 2), LyingLen(["7"], 0), AttrBag(a="1", b="2"),
+        # texts that name attributes every class (every Enum class) has
+        "__module__", "__doc__", "name", "__members__", "mro",
     ]
 
 
@@ -132,6 +134,7 @@ def corruptions(w, rng):
             d = dict(w); d[k] = [d[k]]; out.append(d)                  # nesting changed
             d = dict(w); d[k] = "zz" if not isinstance(d[k], str) else 12.5; out.append(d)   # field retyped
         out.append(list(w.items()))
+        out.append(dict(reversed(list(w.items()))))                    # the same members in another order (still valid)
         out.append({**w, "extra": None})
         out.append([w])
     elif isinstance(w, list):
